@@ -580,6 +580,60 @@ func synthCRL(g *RNG, idx []string) *ObjSpec {
 	return nil
 }
 
+// synthOCSP draws one synthetic OCSP response (BasicOCSPResponse with one
+// SingleResponse; no embedded certificate, so the parser checks no signature).
+func synthOCSP(g *RNG, idx []string) *ObjSpec {
+	d := donor(g, idx)
+	if d == nil {
+		return nil
+	}
+	for tries := 0; tries < 8; tries++ {
+		produced := synthBase.Add(time.Duration(g.Intn(17*365*24)) * time.Hour).Add(time.Duration(g.Intn(3600)) * time.Second)
+		this := produced.Add(time.Duration(pick(g, []int{0, -1, 1, -60, 60, -3600, 3600, -86400, 86400})) * time.Second)
+		hash := func(n int) []byte {
+			b := make([]byte, n)
+			for i := range b {
+				b[i] = byte(g.Intn(256))
+			}
+			return b
+		}
+		certID := dseq(dseq(doid("1.3.14.3.2.26"), []byte{0x05, 0x00}), doctet(hash(20)), doctet(hash(20)), dint(new(big.Int).SetUint64(g.U64()>>1)))
+		var status []byte
+		switch g.Intn(3) {
+		case 0:
+			status = []byte{0x80, 0x00}
+		case 1:
+			rev := [][]byte{tlv(0x18, []byte(this.Add(-time.Hour).UTC().Format("20060102150405Z")))}
+			if g.Chance(0.6) {
+				rev = append(rev, ctxCons(0, tlv(0x0a, []byte{byte(pick(g, []int{0, 1, 4, 5, 6, 8, 9, 10}))})))
+			}
+			status = tlv(0xa1, rev...)
+		case 2:
+			status = []byte{0x82, 0x00}
+		}
+		single := [][]byte{certID, status, dtime(this, true)}
+		if g.Chance(0.85) {
+			single = append(single, ctxCons(0, dtime(this.Add(time.Duration(pick(g, []int{1, 24, 96, 240}))*time.Hour), true)))
+		}
+		var rid []byte
+		if g.Chance(0.5) {
+			rid = ctxCons(1, d.issuer)
+		} else {
+			rid = ctxCons(2, doctet(hash(20)))
+		}
+		rdParts := [][]byte{rid, dtime(produced, true), dseq(dseq(single...))}
+		if g.Chance(0.3) {
+			rdParts = append(rdParts, ctxCons(1, dseq(dext("1.3.6.1.5.5.7.48.1.2", false, doctet(hash(16))))))
+		}
+		basic := dseq(dseq(rdParts...), d.sigAlg, d.sig)
+		der := dseq(tlv(0x0a, []byte{0}), ctxCons(0, dseq(doid("1.3.6.1.5.5.7.48.1.1"), doctet(basic))))
+		if _, err := parseObj(KOCSP, der); err == nil {
+			return &ObjSpec{ID: "synth-ocsp:" + sha(der)[:12], Kind: KOCSP, DER: der}
+		}
+	}
+	return nil
+}
+
 // maybeSynth replaces o by a synthetic object of the same kind with probability p.
 func maybeSynth(g *RNG, idx []string, o *ObjSpec, p float64) *ObjSpec {
 	if o == nil || !g.Chance(p) {
@@ -591,6 +645,8 @@ func maybeSynth(g *RNG, idx []string, o *ObjSpec, p float64) *ObjSpec {
 		s = synthCert(g, idx)
 	case KCRL:
 		s = synthCRL(g, idx)
+	case KOCSP:
+		s = synthOCSP(g, idx)
 	}
 	if s != nil {
 		return s
